@@ -81,6 +81,15 @@ def quad(
     else:
         raise RuntimeError("The output of the fcn must be non-empty")
 
+    # a limit given as a tensor of another precision (or on another device) than
+    # the integrand is converted here, where autograd records the conversion
+    # (converted inside the Function, the copy would be cut off from the tensor
+    # that was given: no higher-order derivative w.r.t. that limit)
+    if isinstance(xl, torch.Tensor):
+        xl = xl.to(dtype=dtype, device=device)
+    if isinstance(xu, torch.Tensor):
+        xu = xu.to(dtype=dtype, device=device)
+
     pfunc = get_pure_function(fcn)
     nparams = len(params)
     if is_tuple_out:
